@@ -297,6 +297,10 @@ Theorem C12_exact_first_group : forall E,
   (forall v, In v shn -> exists e j, In e E /\ 0 <= j < idx /\ v = VStr (atom_label e j)) ->
   exact [] shn idx ds vs shn' -> vs = pos_names idx ds.
 Proof. exact exact_first_group. Qed.
+(** the index never falls behind the position: the new atom at position p of a coarse node gets an index >= counter + p *)
+Theorem C12_exact_index_ge : forall used ds shn idx vs shn', exact used shn idx ds vs shn' ->
+  forall p e sh, nth_error ds p = Some (New e sh) -> exists i, nth_error vs p = Some (VStr (atom_label e i)) /\ idx + Z.of_nat p <= i.
+Proof. exact exact_index_ge. Qed.
 (** one coarse node of set_atom_names: its names afterwards are the ones [exact] describes, atoms named before keep their names
     (later owners), nothing else changes *)
 Theorem C12_group_exact : forall mol fgs named shn mn nodes mol1 fgs1 named1 shn1,
@@ -471,6 +475,7 @@ Print Assumptions C12_assign_exact.
 Print Assumptions C12_exact_unique.
 Print Assumptions C12_assign_total.
 Print Assumptions C12_exact_first_group.
+Print Assumptions C12_exact_index_ge.
 Print Assumptions C12_group_exact.
 Print Assumptions C12_set_atom_names_closed_form.
 Print Assumptions C12_set_atom_names_closed_form_returned.
